@@ -410,6 +410,7 @@ def run(ctx, rep):
         allowed_creators={"bytecode::stack::PrimitiveFlagsPair::new", "bytecode::stack::PrimitiveModule::new"},
         allowed_new_callers={"bytecode::stack::Stack::register_variable_local", "bytecode::instruction::implementations::export_special"})
     queue_drained(F, rep)
+    module_identity(F, rep)
 
 
 def rules_fn_arg(fn, op):
@@ -454,3 +455,133 @@ def queue_drained(F, rep):
         rep.ob("C11.queue-drained", "the walk over the compilation queue ends only at the end of the queue", "violated" if other else "ok",
                ("the tested node goes through %s: a step that fails the predicate ends the walk and every module queued behind it is never compiled" % other) if other
                else "node comes from %s and the `next` links" % sorted({mir.short(c.callee()) for c in oc}), f.span, fn=f.path, key="C11.queue-drained|bb%d" % 0)
+
+
+PATH_TRANSPARENT = ("std::path::Path::new", "std::path::Path::join", "std::path::Path::to_path_buf", "std::path::Path::with_extension",
+                    "std::path::PathBuf::push", "core::convert::AsRef::as_ref", "core::ops::deref::Deref::deref", "core::clone::Clone::clone",
+                    "core::convert::From::from", "core::convert::Into::into", "core::ops::try_trait::Try::branch", "anyhow::Context::context",
+                    "core::iter::traits::iterator::Iterator::collect", "core::iter::traits::collect::FromIterator::from_iter",
+                    "std::path::Path::parent", "alloc::borrow::ToOwned::to_owned")
+
+
+def module_identity(F, rep):
+    """A module is identified by the path its import spells (compile-time registry, run-time `<path>#__module__` key).  The grammar of
+    import_path admits path features that do not name anything (`.`, `..`): two spellings of one file are one module only if the builder of
+    the key neutralises every such feature the grammar can actually produce."""
+    G = F.grammar()
+    rules_ = {r["name"]: r for r in G["rules"]}
+    if "import_path" not in rules_ or "path_feature" not in rules_:
+        raise AnchorMissing("grammar rules import_path / path_feature")
+    def alts(e):
+        if e["k"] == "choice":
+            return alts(e["a"]) + alts(e["b"])
+        return [e]
+    feats = []
+    for a in alts(rules_["path_feature"]["expr"]):
+        lit = None
+        if a["k"] == "ident" and a["v"] in rules_ and rules_[a["v"]]["expr"]["k"] == "str":
+            lit = rules_[a["v"]]["expr"]["v"]
+        elif a["k"] == "str":
+            lit = a["v"]
+        feats.append((a.get("v"), lit))
+    live, shadowed = [], []
+    seen_lits = []
+    for name, lit in feats:
+        if lit is None:
+            continue
+        # PEG ordered choice: an alternative is dead when an earlier literal alternative is a prefix of it
+        (shadowed if any(lit.startswith(x) for x in seen_lits) else live).append(lit)
+        seen_lits.append(lit)
+    rep.floor("C11.module-identity non-naming path features in the grammar", len(live) + len(shadowed), 2)
+    want = {".": "CurDir", "..": "ParentDir"}
+    pf = need(F, "compiler::ast::import::Import::path_from_parts")
+    ip = need(F, "compiler::ast::import::<impl compiler::parser::Parser>::import_path") if F.fn("compiler::ast::import::<impl compiler::parser::Parser>::import_path") else None
+    if ip is None:
+        cands = [f for f in F.all_fns() if f.path.endswith("::import_path") and f.path.startswith("compiler::ast::import")]
+        if len(cands) != 1:
+            raise AnchorMissing("Parser::import_path")
+        ip = cands[0]
+    # who may build: every Import value takes its path from Parser::import_path, which takes it from path_from_parts
+    n_src = 0
+    okw = True
+    for f in F.all_fns():
+        if not f.path.startswith("compiler::"):
+            continue
+        for bi, si, dst, rv, s_ in f.assigns():
+            if "agg" in rv and rv["agg"].get("adt", "").endswith("ast::import::Import") and rv["ops"]:
+                # the path field: the PathBuf-typed operand
+                for o in rv["ops"]:
+                    l = op_local(o)
+                    if l is not None and f.locals[l].endswith("path::PathBuf"):
+                        n_src += 1
+                        oc = rules.origin_calls(f, l, transparent=rules.TRANSPARENT | {rules.TRY_BRANCH, "compiler::VecErr::to_err_vec"})
+                        if not (oc and all(c.matches(ip.path) or c.callee().endswith("::import_path") for c in oc)):
+                            okw = False
+    rep.floor("C11.module-identity Import values built", n_src, 2)
+    rep.ob("C11.module-identity", "every Import statement takes its module path from Parser::import_path", "ok" if okw else "violated", "%d Import values" % n_src,
+           ip.span, fn=ip.path, key="C11.module-identity|single-builder")
+    calls_pf = ip.calls_to(pf.path)
+    rep.ob("C11.module-identity", "Parser::import_path builds the path with Import::path_from_parts", "ok" if calls_pf else "violated", "", ip.span, fn=ip.path,
+           key="C11.module-identity|import_path-uses-builder")
+    # evidence in the builder (and its closures)
+    bodies = [pf] + list(F.closures_of(pf))
+    # std::path::Component is not a local ADT: its (stable, derive(PartialOrd)-relevant) variant order is written down here and cross-checked
+    # against every downcast the MIR shows
+    comp = F.adt("std::path::Component") or {"variants": [{"name": n} for n in ("Prefix", "RootDir", "CurDir", "ParentDir", "Normal")]}
+    for g in [pf] + list(F.closures_of(pf)):
+        for bi, si, dst, rv, s_ in g.assigns():
+            pl = op_place(rv.get("use")) if "use" in rv else rv.get("ref")
+            for e in (pl or {}).get("p", []):
+                if e[0] == "downcast" and g.locals[pl["l"]].lstrip("&").replace("mut ", "").startswith("std::path::Component") \
+                        and e is [x for x in pl["p"] if x[0] != "deref"][0] and comp["variants"][e[2]]["name"] != e[1]:
+                    raise AnchorMissing("std::path::Component variant order")
+    tested = set()
+    canonical = False
+    unknown = []
+    uses_components = False
+    for g in bodies:
+        for c in g.calls():
+            if c.matches(("std::path::Path::canonicalize", "std::fs::canonicalize")):
+                canonical = True
+            elif c.matches("std::path::Path::components"):
+                uses_components = True
+        # switch on a Component discriminant
+        for bb, blk in enumerate(g.blocks):
+            t = blk["t"]
+            if t["k"] == "switch":
+                dl = op_local(t["discr"])
+                for s_ in blk["s"]:
+                    if "d" in s_ and s_["d"]["l"] == dl and "discr" in s_["rv"] and "path::Component" in g.locals[s_["rv"]["discr"]["l"]] and comp:
+                        names = [v["name"] for v in comp["variants"]]
+                        tested |= {names[int(v)] for v, _ in t["targets"] if int(v) < len(names)}
+        # == / != against a constant Component
+        for c in g.calls():
+            if c.matches(("core::cmp::PartialEq::ne", "core::cmp::PartialEq::eq")) and any("path::Component" in g.locals[op_local(a)] for a in c.args if op_local(a) is not None):
+                for body in g.d.get("promoted", []) or []:
+                    for blk in body.get("blocks", []):
+                        for s_ in blk.get("s", []):
+                            rv = s_.get("rv", {})
+                            if "agg" in rv and rv["agg"].get("adt", "").endswith("path::Component"):
+                                tested.add(rv["agg"].get("v"))
+    # anything on the way from the import text to the result that is neither a plain path operation nor the evidence above
+    for c in pf.calls():
+        if c.matches(PATH_TRANSPARENT) or c.matches(("std::path::Path::components", "core::iter::traits::iterator::Iterator::filter",
+                "compiler::parser::AssocFileData::get_source_file_name", "core::ops::try_trait::FromResidual::from_residual",
+                "std::path::Path::canonicalize", "std::fs::canonicalize", "std::path::PathBuf::pop", "std::path::Path::file_name",
+                "core::iter::traits::iterator::Iterator::next", "core::iter::traits::collect::IntoIterator::into_iter", "core::option::Option<T>::is_some", "core::option::Option::<T>::is_some")):
+            continue
+        unknown.append(mir.short(c.callee()))
+    for lit in live:
+        v = want.get(lit)
+        if canonical or (v and v in tested and uses_components):
+            verdict, why = "ok", ""
+        elif unknown:
+            verdict, why = "undecided", "calls not understood on the way: %s" % sorted(set(unknown))
+        else:
+            verdict, why = "violated", "`import m` and `import %s/m` register and initialise one file as two modules" % lit
+        rep.ob("C11.module-identity", "the module path drops the `%s` feature the grammar lets an import spell" % lit, verdict, why, pf.span, fn=pf.path,
+               key="C11.module-identity|feature|%s" % lit)
+    for lit in shadowed:
+        rep.ob("C11.module-identity", "the `%s` path feature cannot be spelled (an earlier alternative of path_feature always matches first)" % lit, "exempt",
+               "shadowed in the PEG ordered choice; if the grammar is reordered this becomes an obligation", pf.span, fn=pf.path,
+               key="C11.module-identity|shadowed|%s" % lit)
